@@ -33,15 +33,14 @@ for d in sorted(glob.glob(os.path.join(V, "seeded", "C??-r?"))):
     json.dump(m, open(mp, "w"), indent=1)
 bm_p = os.path.join(V, "benign", "matrix.json")
 bm = json.load(open(bm_p)) if os.path.exists(bm_p) else {}
-for d in sorted(glob.glob(os.path.join(V, "benign", "C??-b2"))):
+for d in sorted(glob.glob(os.path.join(V, "benign", "C??-b[23]"))):
     name = os.path.basename(d)
     am = json.load(open(os.path.join(d, "agent_meta.json")))
     res = bm.get(name)
-    m = {"id": "benign-" + name, "anchored_in_property": name.split("-")[0], "kind": "behaviour-preserving structural refactoring (false-alarm probe, round 2: helpers split off, "
-         "table-driven dispatch, loops rewritten, keyword arguments, guard clauses)", "edits": am.get("edits"), "files": am.get("files"),
+    m = {"id": "benign-" + name, "anchored_in_property": name.split("-")[0], "kind": "behaviour-preserving structural refactoring (false-alarm probe, round %s: helpers split off, table-driven dispatch, loops rewritten, keyword arguments, guard clauses, validation / dispatch / formatting code reorganised)" % name[-1], "edits": am.get("edits"), "files": am.get("files"),
          "origin": "written by a sub-agent that saw only the property text and its own scratch worktree of /repo; asked for heavier structural refactorings that must not change "
                    "behaviour, with an equivalence demonstration against a pristine copy",
-         "confirmed_by_me": {"how": "tools/prep_benign2.sh: unedited suite with the edits (250 passed, 1 failed = baseline); equiv_demo.py exit 0 (original vs edited package); diff "
+         "confirmed_by_me": {"how": "tools/prep_benign2.sh / prep_benign3.sh: unedited suite with the edits (250 passed, 1 failed = baseline); equiv_demo.py exit 0 (original vs edited package); diff "
                                     "re-based on /repo HEAD (hand-merged with the later fix commits where they touch the same lines) and all 20 checks run there "
                                     "(tools/benign_matrix.py)",
                              "expected": "every check exits 0 with no new VIOLATION line"},
